@@ -1,8 +1,12 @@
 //! C11: drives dasp_rms::Rms and the dasp_signal rms adaptor (std build in harness/, and the same
 //! source built against the no_std-configured crates in harness_nightly_nostd/ with cargo +nightly).
 //! `R ...` lines: see ../c11_body.rs.
-//! `A <fmt> <nostd> <chans> <N> <sq> <k> <fin> ; <frames flattened>`: signal adaptor, zero window of N
-//! frames, k x next() (sq = 1: next_squared()); output `2 out-bits..` per call, then `4 <count>`.
+//! `A <fmt> <nostd> <chans> <N> <sq> <k> <fin> <cl> ; <frames flattened>`: signal adaptor, zero window of N
+//! frames, k x next() (sq = 1: next_squared()); output `2 out-bits..` per call, then `4 <count>`;
+//! cl >= 0: before call number cl the adaptor is replaced by its clone().  After the k calls
+//! `into_parts()` = (source, detector): `5 window..` ; `3 square_sum..` ; `4 window_frames` ;
+//! `2 current()` of the returned detector, then `2 detector.next(source.next())`, (fin = 1:
+//! `3 source.is_exhausted()`), `4 <count>` again.
 //! fin = 0: the source is a counting closure (gen_mut: the given frames, then equilibrium; never
 //! exhausted), count = frames pulled.  fin = 1: the source is signal::from_iter over the finite frame
 //! list (through a counting iterator); `3 <is_exhausted>` is printed before the first call and after
@@ -14,9 +18,29 @@ use std::cell::Cell;
 
 include!("../c11_body.rs");
 
+/// what dasp_signal::rms::Rms::into_parts() returned, used on its own: the detector's window, running
+/// sum, window_frames() and current(), then one more source frame through the detector
+macro_rules! parts_obs {
+    ($out:ident, $src:ident, $det:ident, $flbits:ident) => {
+        let (w, sum) = $det.clone().into_parts();
+        let mut flat = Vec::new();
+        for f in w.iter() {
+            for x in f.channels() {
+                flat.push($flbits(x));
+            }
+        }
+        $out.push(ob(5, &flat));
+        $out.push(ob(3, &sum.channels().map(|x| $flbits(x)).collect::<Vec<_>>()));
+        $out.push(ob(4, &[$det.window_frames() as u64]));
+        $out.push(ob(2, &$det.current().channels().map(|x| $flbits(x)).collect::<Vec<_>>()));
+        let fr = $src.next();
+        $out.push(ob(2, &$det.next(fr).channels().map(|x| $flbits(x)).collect::<Vec<_>>()));
+    };
+}
+
 macro_rules! adriver {
     ($name:ident, $S:ty, $Fl:ty, $C:expr, $samp:ident, $flbits:ident) => {
-        fn $name(n: usize, sq: bool, k: usize, fin: bool, vals: &[i128]) -> Vec<String> {
+        fn $name(n: usize, sq: bool, k: usize, fin: bool, cl: i128, vals: &[i128]) -> Vec<String> {
             let frames: Vec<[$S; $C]> = vals
                 .chunks($C)
                 .map(|ch| {
@@ -34,11 +58,19 @@ macro_rules! adriver {
                 let mut r = src.rms(ring);
                 let mut out = Vec::new();
                 out.push(ob(3, &[r.is_exhausted() as u64]));
-                for _ in 0..k {
+                for j in 0..k {
+                    if j as i128 == cl {
+                        let c = r.clone();
+                        r = c;
+                    }
                     let o = if sq { r.next_squared() } else { r.next() };
-                    out.push(ob(2, &o.iter().map(|x| $flbits(*x)).collect::<Vec<_>>()));
+                    out.push(ob(2, &o.channels().map(|x| $flbits(x)).collect::<Vec<_>>()));
                     out.push(ob(3, &[r.is_exhausted() as u64]));
                 }
+                out.push(ob(4, &[cnt.get() as u64]));
+                let (mut src, mut det) = r.into_parts();
+                parts_obs!(out, src, det, $flbits);
+                out.push(ob(3, &[src.is_exhausted() as u64]));
                 out.push(ob(4, &[cnt.get() as u64]));
                 return out;
             }
@@ -50,15 +82,79 @@ macro_rules! adriver {
             let ring = Fixed::from(vec![[<$Fl>::default(); $C]; n].into_boxed_slice());
             let mut r = src.rms(ring);
             let mut out = Vec::new();
-            for _ in 0..k {
+            for j in 0..k {
+                if j as i128 == cl {
+                    let c = r.clone();
+                    r = c;
+                }
                 let o = if sq { r.next_squared() } else { r.next() };
-                out.push(ob(2, &o.iter().map(|x| $flbits(*x)).collect::<Vec<_>>()));
+                out.push(ob(2, &o.channels().map(|x| $flbits(x)).collect::<Vec<_>>()));
             }
+            out.push(ob(4, &[cnt.get() as u64]));
+            let (mut src, mut det) = r.into_parts();
+            parts_obs!(out, src, det, $flbits);
             out.push(ob(4, &[cnt.get() as u64]));
             out
         }
     };
 }
+macro_rules! adriver0 {
+    ($name:ident, $S:ty, $Fl:ty, $samp:ident, $flbits:ident) => {
+        fn $name(n: usize, sq: bool, k: usize, fin: bool, cl: i128, vals: &[i128]) -> Vec<String> {
+            // the bare sample type as a mono frame
+            let frames: Vec<$S> = vals.iter().map(|v| $samp(*v)).collect();
+            let cnt = Cell::new(0usize);
+            if fin {
+                let src = signal::from_iter(frames.iter().cloned().inspect(|_| cnt.set(cnt.get() + 1)));
+                let ring = Fixed::from(vec![<$Fl>::default(); n].into_boxed_slice());
+                let mut r = src.rms(ring);
+                let mut out = Vec::new();
+                out.push(ob(3, &[r.is_exhausted() as u64]));
+                for j in 0..k {
+                    if j as i128 == cl {
+                        let c = r.clone();
+                        r = c;
+                    }
+                    let o = if sq { r.next_squared() } else { r.next() };
+                    out.push(ob(2, &o.channels().map(|x| $flbits(x)).collect::<Vec<_>>()));
+                    out.push(ob(3, &[r.is_exhausted() as u64]));
+                }
+                out.push(ob(4, &[cnt.get() as u64]));
+                let (mut src, mut det) = r.into_parts();
+                parts_obs!(out, src, det, $flbits);
+                out.push(ob(3, &[src.is_exhausted() as u64]));
+                out.push(ob(4, &[cnt.get() as u64]));
+                return out;
+            }
+            let src = signal::gen_mut(|| {
+                let i = cnt.get();
+                cnt.set(i + 1);
+                if i < frames.len() { frames[i] } else { <$S as dasp_sample::Sample>::EQUILIBRIUM }
+            });
+            let ring = Fixed::from(vec![<$Fl>::default(); n].into_boxed_slice());
+            let mut r = src.rms(ring);
+            let mut out = Vec::new();
+            for j in 0..k {
+                if j as i128 == cl {
+                    let c = r.clone();
+                    r = c;
+                }
+                let o = if sq { r.next_squared() } else { r.next() };
+                out.push(ob(2, &o.channels().map(|x| $flbits(x)).collect::<Vec<_>>()));
+            }
+            out.push(ob(4, &[cnt.get() as u64]));
+            let (mut src, mut det) = r.into_parts();
+            parts_obs!(out, src, det, $flbits);
+            out.push(ob(4, &[cnt.get() as u64]));
+            out
+        }
+    };
+}
+
+adriver0!(a_f32_0, f32, f32, s_f32, bits32);
+adriver0!(a_f64_0, f64, f64, s_f64, bits64);
+adriver0!(a_i16_0, i16, f32, s_i16, bits32);
+adriver0!(a_u8_0, u8, f32, s_u8, bits32);
 adriver!(a_f32_1, f32, f32, 1, s_f32, bits32);
 adriver!(a_f32_2, f32, f32, 2, s_f32, bits32);
 adriver!(a_f32_3, f32, f32, 3, s_f32, bits32);
@@ -81,17 +177,19 @@ fn run_a(line: &str) -> String {
     let head: Vec<&str> = parts[0].split_whitespace().collect();
     let h: Vec<i128> = head[1..].iter().map(|t| t.parse().unwrap()).collect();
     let (fmt, chans, n, sq, k, fin) = (h[0], h[2] as usize, h[3] as usize, h[4] == 1, h[5] as usize, h[6] == 1);
+    let cl = if h.len() > 7 { h[7] } else { -1 };
     assert!(h[1] == build_nostd(), "case is for the other build configuration");
     let vals = nums(parts[1]);
-    assert!(vals.len() % chans == 0);
+    assert!(vals.len() % chans.max(1) == 0);
     let f = match (fmt, chans) {
+        (0, 0) => a_f32_0, (1, 0) => a_f64_0, (2, 0) => a_i16_0, (3, 0) => a_u8_0,
         (0, 1) => a_f32_1, (0, 2) => a_f32_2, (0, 3) => a_f32_3, (0, 4) => a_f32_4,
         (1, 1) => a_f64_1, (1, 2) => a_f64_2, (1, 3) => a_f64_3, (1, 4) => a_f64_4,
         (2, 1) => a_i16_1, (2, 2) => a_i16_2, (2, 3) => a_i16_3, (2, 4) => a_i16_4,
         (3, 1) => a_u8_1, (3, 2) => a_u8_2, (3, 3) => a_u8_3, (3, 4) => a_u8_4,
         _ => panic!("unsupported fmt/chans"),
     };
-    match catch(|| f(n, sq, k, fin, &vals)) {
+    match catch(|| f(n, sq, k, fin, cl, &vals)) {
         Ok(v) => v.join(";"),
         Err(c) => ob(8, &[c as u64]),
     }
